@@ -18,7 +18,7 @@ from vlib.run import HarnessError, Result
 LEVEL = "exploration"
 RULE = (
     "a script = owner-loop end state {running, stopped-not-closed, closed} + 1..4 bursts of 1..200 concurrent calls, each "
-    "call = (method kind in {coroutine returning a value, coroutine raising, plain returning None, plain returning a value, "
+    "call = (where the proxy attribute was looked up {at call time, earlier on the main loop, earlier on the owner loop}, method kind in {coroutine returning a value, coroutine raising, plain returning None, plain returning a value, "
     "plain raising, non-callable attribute}, caller in {owner loop, main-thread loop, second loop thread}, argument). "
     "Non-trivial = at least one call crossed threads; distinct by script. Oracles are timing-insensitive (thread identity, "
     "value/exception relay, exactly-once, per-caller FIFO); a 20 s wall guard per script yields 'inconclusive', never a violation."
@@ -91,11 +91,11 @@ class RawLoopThread:
         self.thread.join(5)
 
 
-async def drive_calls(proxy, calls, out, caller, await_results=True):
+async def drive_calls(proxy, calls, out, caller, await_results=True, pre=None):
     """Issue calls from the current loop; collect what the caller sees."""
     me = threading.get_ident()
     futs = []
-    for cid, kind, arg in calls:
+    for cid, kind, arg, lookup in calls:
         t0 = time.monotonic()
         try:
             if kind == "attr":
@@ -105,7 +105,8 @@ async def drive_calls(proxy, calls, out, caller, await_results=True):
                 except TypeError:
                     out[cid] = ("TypeError", None, me)
                 continue
-            res = getattr(proxy, kind)(arg)
+            fn = pre[lookup][kind] if (pre and lookup in pre) else getattr(proxy, kind)
+            res = fn(arg)
         except Exception as ex:
             out[cid] = ("call-raised", repr(ex), me)
             continue
@@ -156,6 +157,12 @@ async def run_script(plan, r: Result):
         owner_ident = await owner.run_coroutine_threadsafe(_ident())
     owner_loop.call_soon_threadsafe(owner_loop.set_exception_handler, lambda l, ctx: errors.append(ctx.get("exception")))
     proxy = ThreadsafeProxy(target, owner_loop)
+    # wrappers looked up ahead of time on a loop that may differ from the one that later calls them
+    pre = {"main": {k: getattr(proxy, k) for k in KINDS if k != "attr"}}
+    if state != "stopped":
+        async def fetch():
+            return {k: getattr(proxy, k) for k in KINDS if k != "attr"}
+        pre["owner"] = await owner.run_coroutine_threadsafe(fetch())
     try:
         if state == "closed":
             done = owner.thread_complete
@@ -172,21 +179,25 @@ async def run_script(plan, r: Result):
         for burst in plan["bursts"]:
             by_caller = {"main": [], "second": [], "owner": []}
             issued = []
-            for kind, caller, arg in burst:
+            for call_ in burst:
+                kind, caller, arg = call_[0], call_[1], call_[2]
+                lookup = call_[3] if len(call_) > 3 else "call"
                 if caller == "owner" and state != "running":
                     caller = "main"
-                by_caller[caller].append((cid, kind, arg))
+                by_caller[caller].append((cid, kind, arg, lookup))
+                if lookup != "call" and lookup != caller:
+                    pass
                 issued.append((cid, kind, caller, arg))
                 cid += 1
             out = {}
             n0 = len(target.calls)
             e0 = len(errors)
             aw = state != "stopped"
-            jobs = [drive_calls(proxy, by_caller["main"], out, "main", aw)]
+            jobs = [drive_calls(proxy, by_caller["main"], out, "main", aw, pre)]
             if by_caller["second"]:
-                jobs.append(second.run_coroutine_threadsafe(drive_calls(proxy, by_caller["second"], out, "second", aw)))
+                jobs.append(second.run_coroutine_threadsafe(drive_calls(proxy, by_caller["second"], out, "second", aw, pre)))
             if by_caller["owner"]:
-                jobs.append(owner.run_coroutine_threadsafe(drive_calls(proxy, by_caller["owner"], out, "owner")))
+                jobs.append(owner.run_coroutine_threadsafe(drive_calls(proxy, by_caller["owner"], out, "owner", True, pre)))
             await asyncio.gather(*jobs)
             if state == "running":
                 await owner.run_coroutine_threadsafe(_ident())  # flush queued plain calls (FIFO)
@@ -314,7 +325,8 @@ def replay(plan) -> Result:
     return check(plan)
 
 
-call = st.tuples(st.sampled_from(KINDS + ["coro_value", "plain_none"]), st.sampled_from(["main", "main", "second", "owner"]), st.integers(0, 10**6)).map(list)
+call = st.tuples(st.sampled_from(KINDS + ["coro_value", "plain_none"]), st.sampled_from(["main", "main", "second", "owner"]), st.integers(0, 10**6),
+                 st.sampled_from(["call", "call", "call", "main", "owner"])).map(list)
 
 
 @st.composite
